@@ -11,6 +11,7 @@ Token syntax (shared with harness/adapters/json_impl.py):
                R<hex>           (any other string)
 -/
 import SmVerif.Model.SigJson
+import SmVerif.Model.JsonText
 import SmVerif.Model.Proto
 
 namespace Sm.DriverJson
@@ -22,17 +23,24 @@ inductive Obj where
   | sig (s : Sig) (frozen : Bool)
 deriving Inhabited
 
+/-- a document handle: a field-level document (and whether its bytes are gzip), or raw bytes with
+    what inflating them gives (`none`: not asked; `some none`: damaged / not text) -/
+inductive DocE where
+  | fields (d : Doc) (gz : Bool)
+  | blob (b : List Nat) (g1 g2 : JsonText.Stream)
+deriving Inhabited
+
 structure St where
   objs : Array (Option Obj)
-  docs : Array (Option (Doc × Bool))      -- document, bytes are gzip
+  docs : Array (Option DocE)
 deriving Inhabited
 
 def init : St := { objs := Array.replicate 512 none, docs := Array.replicate 64 none }
 
 def getObj (st : St) (i : Nat) : Option Obj := (st.objs[i]?).join
 def putObj (st : St) (i : Nat) (o : Obj) : St := { st with objs := st.objs.setIfInBounds i (some o) }
-def getDoc (st : St) (i : Nat) : Option (Doc × Bool) := (st.docs[i]?).join
-def putDoc (st : St) (i : Nat) (d : Doc × Bool) : St := { st with docs := st.docs.setIfInBounds i (some d) }
+def getDoc (st : St) (i : Nat) : Option DocE := (st.docs[i]?).join
+def putDoc (st : St) (i : Nat) (d : DocE) : St := { st with docs := st.docs.setIfInBounds i (some d) }
 
 /-! ### tokens -/
 
@@ -178,6 +186,7 @@ def errName : Err → String
   | .value => "ValueError"
   | .assertion => "AssertionError"
   | .internal => "SourmashError"
+  | .niffler => "NifflerError"
   | .mh .pyType => "TypeError"
   | .mh .pyRuntime => "RuntimeError"
   | .mh .frozen => "TypeError"
@@ -246,6 +255,50 @@ def viaData (via : String) (d : Doc) (lit : Bool) : Option Py.PyData :=
   | "fbin" => some .fileLike
   | "fgz" => some .fileLike
   | _ => none
+
+/-- stand-in for the md5 hex string of a pre-image in rendered text (private-use delimiters; the
+    generator never puts them into names) -/
+def md5Marker (d : Digest) : List Char :=
+  Char.ofNat 0xE000 :: ((toString d.ksize ++ ":" ++ joinNats d.mins).toList ++ [Char.ofNat 0xE001])
+
+/-- rendered text as `|`-separated segments: `H<hex of UTF-8>` and `P<k>:<mins>` (an md5 to be applied) -/
+def showText (cs : List Char) : String :=
+  let flush (cur : List Char) (segs : List String) : List String :=
+    if cur.isEmpty then segs else ("H" ++ hexOfStr (String.ofList cur.reverse)) :: segs
+  let rec go (cs : List Char) (cur : List Char) (inMark : Bool) (segs : List String) : List String :=
+    match cs with
+    | [] => (flush cur segs).reverse
+    | c :: r =>
+      if c = Char.ofNat 0xE000 then go r [] true (flush cur segs)
+      else if c = Char.ofNat 0xE001 && inMark then go r [] false (("P" ++ String.ofList cur.reverse) :: segs)
+      else go r (c :: cur) inMark segs
+  "|".intercalate (go cs [] false [])
+
+/-- `-` (not gzip: never looked at), `h<hex>` inflated bytes, `!<hex>` the bytes delivered before the
+    stream fails -/
+def gzTok? (t : String) : Option JsonText.Stream :=
+  if t = "-" then some ⟨[], false⟩
+  else match stripPrefix "h" t with
+    | some h => (unhex h.toList).map (fun bs => ⟨bs.map UInt8.toNat, false⟩)
+    | none =>
+      match stripPrefix "!" t with
+      | some h => (unhex h.toList).map (fun bs => ⟨bs.map UInt8.toNat, true⟩)
+      | none => none
+
+def textOfBytes (b : List Nat) : Option (List Char) :=
+  (String.fromUTF8? (ByteArray.mk (b.map UInt8.ofNat).toArray)).map String.toList
+
+/-- the same document read field by field and read from its text: must agree (modulo md5 strings,
+    which the reader no longer trusts) -/
+def routesAgree (doc : Doc) : Bool :=
+  let a := decodeDoc doc
+  let b := JsonText.readText (JsonText.printJV (JsonText.docRecJV md5Marker doc))
+  let strip (l : List Sig) : List Sig :=
+    l.map (fun s => { s with sketches := s.sketches.map (fun k => { k with raw := none, mh := { k.mh with md5 := none } }) })
+  match a, b with
+  | .ok x, .ok (y, h) => h == 0 && strip x == strip y
+  | .error e, .error f => errName e == errName f
+  | _, _ => false
 
 def step (st : St) (line : String) : St × String :=
   let bad := (st, "bad-op")
@@ -324,32 +377,61 @@ def step (st : St) (line : String) : St × String :=
       match hs.mapM (fun h => match getObj st h with | some (.sig s _) => some s | _ => none) with
       | some sigs =>
         let (doc, gz) := Py.saveToJson sigs c
-        (putDoc st d (doc, gz), showDoc doc gz)
+        (putDoc st d (.fields doc gz), showDoc doc gz ++ " tx=" ++ showText (JsonText.renderDoc md5Marker sigs))
       | none => bad
     | _, _ => bad
   | "doc" :: d :: n :: rest =>
     match nats? [d, n] with
     | some [d, n] =>
       match sigRecs? n rest with
-      | some doc => (putDoc st d (doc, false), showDoc doc false)
+      | some doc => (putDoc st d (.fields doc false), showDoc doc false)
       | none => bad
     | _ => bad
+  | ["blob", d, hex, g1, g2] =>
+    match nat? d, (stripPrefix "h" hex).bind (fun h => unhex h.toList), gzTok? g1, gzTok? g2 with
+    | some d, some bs, some g1, some g2 => (putDoc st d (.blob (bs.map UInt8.toNat) g1 g2), s!"ok blob n={bs.length}")
+    | _, _, _, _ => bad
   | ["load", r, d, via, k, m, lit, raise] =>
     match nats? [r, d], fld? nat? k, fld? str? m, bool? lit, bool? raise with
     | some [r, d], some k, some m, some lit, some raise =>
+      let k := match k with | .val k => some k | _ => none
+      let m := match m with | .val m => some m | _ => none
+      let answer (x : Except Err (List Sig)) : St × String :=
+        match x with
+        | .ok sigs =>
+          (putAll st r sigs,
+           s!"ok n={sigs.length}" ++ String.join (sigs.map (fun s => " ; " ++ showObj (.sig s true))))
+        | .error e => (st, "err " ++ errName e)
       match getDoc st d with
-      | some (doc, _) =>
+      | some (.fields doc _) =>
         match viaData via doc lit with
         | some data =>
-          let k := match k with | .val k => some k | _ => none
-          let m := match m with | .val m => some m | _ => none
-          let i : Py.LoadIn := { data := data, empty := false, bufDoc := if via = "path" then none else some doc,
-                                 fileDoc := if via = "path" then some doc else none }
-          match Py.loadFromJson i k m raise with
-          | .ok sigs =>
-            (putAll st r sigs,
-             s!"ok n={sigs.length}" ++ String.join (sigs.map (fun s => " ; " ++ showObj (.sig s true))))
-          | .error e => (st, "err " ++ errName e)
+          if !routesAgree doc then (st, "model-split: the field-level and the text-level reader disagree")
+          else
+            let i : Py.LoadIn := { data := data, empty := false, bufDoc := if via = "path" then none else some doc,
+                                   fileDoc := if via = "path" then some doc else none }
+            answer (Py.loadFromJson i k m raise)
+        | none => bad
+      | some (.blob b g1 g2) =>
+        let plain := textOfBytes b
+        let pathData : Py.PyData := .str (if lit then "/p/a_".toList ++ Gen.sniffLiteral.toList else "/p/a".toList) true
+        let gzStandIn : List Nat := Gen.gzipMagic ++ [8, 0, 0]
+        -- (what Python sees, the bytes handed to the FFI, their inflation, and that inflated again)
+        let cfg : Option (Py.PyData × List Nat × JsonText.Stream × JsonText.Stream) :=
+          match via with
+          | "bytes" => some (.bytes b false, b, g1, g2)
+          | "str" => plain.map (fun cs => (.str cs false, b, g1, g2))
+          | "path" => some (pathData, b, g1, g2)
+          | "fbin" => some (.fileLike, b, g1, g2)
+          | "ftext" => some (.fileLike, b, g1, g2)
+          | "gz" => some (.bytes gzStandIn false, gzStandIn, ⟨b, false⟩, g1)
+          | "fgz" => some (.fileLike, gzStandIn, ⟨b, false⟩, g1)
+          | _ => none
+        match cfg with
+        | some (data, content, x1, x2) =>
+          answer (JsonText.pyLoadWith data false
+            (JsonText.ffiLoadBytes false content x1 x2 (k.getD 0) m)
+            (JsonText.ffiLoadBytes true content x1 x2 (k.getD 0) m) raise)
         | none => bad
       | none => bad
     | _, _, _, _, _ => bad
